@@ -89,7 +89,10 @@ func runHarnesses(l *Loaded, spec RunSpec, workers int, verbose bool) []HarnessR
 			cfg.FloatModel = "R"
 		}
 		if cfg.SolverBin == "" {
-			cfg.SolverBin = "z3"
+			cfg.SolverBin = "z3-new"
+			if v := os.Getenv("VERIF_SOLVER"); v != "" {
+				cfg.SolverBin = v
+			}
 		}
 		if cfg.SoftMS == 0 {
 			cfg.SoftMS = 30000
@@ -112,8 +115,8 @@ func runHarnesses(l *Loaded, spec RunSpec, workers int, verbose bool) []HarnessR
 		hr := HarnessResult{Harness: h, Stats: ex.stats, Violations: ex.violations, Inconclusive: ex.inconclusive, WallS: time.Since(t0).Seconds()}
 		out = append(out, hr)
 		if verbose {
-			fmt.Fprintf(os.Stderr, "  %-50s paths=%d obl=%d/%d queries=%d (unk %d) solver=%.1fs wall=%.1fs vio=%d inc=%d merge=%d/%d steps=%d\n", h, ex.stats.Paths, ex.stats.Discharged, ex.stats.Obligations,
-				ex.stats.Queries, ex.stats.QUnknown, ex.stats.SolverSec, hr.WallS, len(ex.violations), len(ex.inconclusive), ex.stats.MergeOK, ex.stats.MergeAbort, ex.stats.Steps)
+			fmt.Fprintf(os.Stderr, "  %-50s paths=%d obl=%d/%d queries=%d (unk %d) solver=%.1fs wall=%.1fs vio=%d inc=%d merge=%d/%d steps=%d cachehits=%d\n", h, ex.stats.Paths, ex.stats.Discharged, ex.stats.Obligations,
+				ex.stats.Queries, ex.stats.QUnknown, ex.stats.SolverSec, hr.WallS, len(ex.violations), len(ex.inconclusive), ex.stats.MergeOK, ex.stats.MergeAbort, ex.stats.Steps, ex.stats.CacheHits)
 			for _, inc := range ex.inconclusive {
 				fmt.Fprintf(os.Stderr, "    INCONCLUSIVE: %s [%s]\n", inc.Reason, inc.Case)
 			}
@@ -139,6 +142,7 @@ func cmdRun(args []string) int {
 	replay := fs.Bool("replay", false, "replay violations natively")
 	fpexact := fs.Bool("fp-exact-add", false, "model F: real fp.add/sub")
 	maxPaths := fs.Int("max-paths", 0, "path budget")
+	solver := fs.String("solver", "", "solver binary (default z3-new)")
 	fs.Parse(args)
 	t0 := time.Now()
 	l, err := loadProgram(repoRoot, filepath.Join(verifRoot, "harness"), *pkg, *tags)
@@ -147,7 +151,7 @@ func cmdRun(args []string) int {
 		return 2
 	}
 	fmt.Fprintf(os.Stderr, "loaded %s in %.1fs; harnesses: %v\n", *pkg, time.Since(t0).Seconds(), l.Harness)
-	spec := RunSpec{Pkg: *pkg, Tags: *tags, Model: *model, Merge: *merge, SoftMS: *soft, FPExact: *fpexact, MaxPaths: *maxPaths}
+	spec := RunSpec{Pkg: *pkg, Tags: *tags, Model: *model, Merge: *merge, SoftMS: *soft, FPExact: *fpexact, MaxPaths: *maxPaths, Solver: *solver}
 	if *harness != "" {
 		spec.Harness = strings.Split(*harness, ",")
 	}
